@@ -63,8 +63,11 @@ def py_expand(s, lookup):
 
 
 # ------------------------------------------------------------------ generator
-def gen_slice(rng, arrays, want_spare=False, nonempty=False):
+def gen_slice(rng, arrays, want_spare=False, nonempty=False, prefer_long=False):
     ids = [i for i, a in enumerate(arrays) if (len(a) >= 2 or not want_spare)]
+    longs = [i for i in ids if len(arrays[i]) >= 15]
+    if prefer_long and longs and rng.random() < 0.5:
+        ids = longs
     i = rng.choice(ids or list(range(len(arrays))))
     n = len(arrays[i])
     off = rng.choice([0, 0, 0, rng.randint(0, n)])
@@ -90,7 +93,7 @@ def gen_arrays(rng, scripts=False):
         n = rng.choice([0, 1, 2, 2, 3, 3, 4, 5, 6, 6, 9, 12]) if rng.random() < 0.75 else rng.choice([15, 16, 17, 17, 18, 20, 24, 31, 32, 33, 34, 40, 41])
         words = PLAIN if rng.random() < 0.4 else WORDS      # arrays without any $ reference are frequent
         # how often a cell scripts the child: failing calls must be as frequent as succeeding ones, for every length
-        dens = rng.choice([0.0, 0.09, 0.2]) if n <= 12 else rng.choice([0.0, 0.0, 0.03, 0.06])
+        dens = rng.choice([0.0, 0.15, 0.3]) if n <= 12 else rng.choice([0.0, 0.03, 0.06, 0.1])
         arrays.append([rng.choice(SCRIPTS) if scripts and rng.random() < dens else rng.choice(words) for _ in range(n)])
     if all(len(a) < 2 for a in arrays):
         arrays.append([rng.choice(WORDS) for _ in range(3)])
@@ -194,7 +197,7 @@ def gen_history(rng):
             emap = None
             if fn in USES_MAP or rng.random() < 0.3:
                 emap = None if rng.random() < 0.2 else {v: rng.choice(VALUES) for v in VARS + [UNSET] if rng.random() < 0.35}
-            args = dict(NILS) if rng.random() < 0.1 else gen_slice(rng, arrays)
+            args = dict(NILS) if rng.random() < 0.1 else gen_slice(rng, arrays, prefer_long=True)
             ops.append({"op": "direct", "fn": fn, "emap": emap, "cmd": rng.choice(CMDS), "args": args})
     if not any(o["op"] in ("call", "direct") for o in ops):
         ops.append({"op": "call", "c": 0, "extra": dict(NILS)})
@@ -209,7 +212,7 @@ def gen_par(rng, reps):
     arrays = gen_arrays(rng)[:2]
     nb = rng.choice(BAKED_COUNTS)
     spare = rng.choice([0, 0, 1, 2])
-    slow_n = rng.choice([0, 300, 800, 800])
+    slow_n = rng.choice([0, 200, 400, 400])
     cells = []
     for i in range(nb + spare):
         w = rng.choice(WORDS)
@@ -609,9 +612,10 @@ def hist_term(case, ans):
     for o, ob in zip(case["ops"], ans["obs"]):
         obs.append("{| i_argv := %s; i_out := %s; i_stdout := %s; i_status := %d; i_snap := %s; i_emap := %s |}" % (
             coq_list([t_strs(a) for a in ob["argv"]]), t_optstr(ob["out"]), coq_str(ob.get("stdout") or ""), ob.get("status") or 0,
-            t_heap(ob["snap"]), t_env(ob.get("emap") or {})))
-    return "{| c_lookup := %s; c_env := %s; c_heap := %s; c_cls := %s; c_ops := %s; c_obs := %s |}" % (
-        t_lookup(case, ans), t_env(full_env(case)), t_heap(case["arrays"]), t_cls(case["closures"]), coq_list([t_op(o) for o in case["ops"]]), coq_list(obs))
+            "h0_" if ob["snap"] == case["arrays"] else t_heap(ob["snap"]), t_env(ob.get("emap") or {})))
+    # the caller's arrays are written once per case (let-bound); an unchanged snapshot refers to them
+    return "(let h0_ := %s in {| c_lookup := %s; c_env := %s; c_heap := h0_; c_cls := %s; c_ops := %s; c_obs := %s |})" % (
+        t_heap(case["arrays"]), t_lookup(case, ans), t_env(full_env(case)), t_cls(case["closures"]), coq_list([t_op(o) for o in case["ops"]]), coq_list(obs))
 
 
 def par_terms(case, ans):
@@ -647,12 +651,13 @@ def par_terms(case, ans):
                 if g not in mine:
                     mine[g] = rest.pop(0) if rest else []
             for (ga, gb) in pairs:
-                out.append("{| cc_lookup := %s; cc_env := %s; cc_heap := %s; cc_cls := %s; cc_a := %s; cc_b := %s; cc_sched := %s; cc_argv_a := %s; cc_argv_b := %s; "
-                           "cc_out_a := %s; cc_out_b := %s; cc_snap := %s |}" % (
-                               t_lookup(case, ans), t_env(env), t_heap(case["arrays"]), t_cls(case["closures"]),
+                out.append("(let h0_ := %s in {| cc_lookup := %s; cc_env := %s; cc_heap := h0_; cc_cls := %s; cc_a := %s; cc_b := %s; cc_sched := %s; cc_argv_a := %s; cc_argv_b := %s; "
+                           "cc_out_a := %s; cc_out_b := %s; cc_snap := %s |})" % (
+                               t_heap(case["arrays"]), t_lookup(case, ans), t_env(env), t_cls(case["closures"]),
                                t_call(extras[ga]), t_call(extras[gb]),
                                coq_list([coq_bool(x) for x in case["scheds"][ri % len(case["scheds"])]]),
-                               t_strs(mine[ga]), t_strs(mine[gb]), t_optstr(rp["outs"][ga]), t_optstr(rp["outs"][gb]), t_heap(rp["snap"])))
+                               t_strs(mine[ga]), t_strs(mine[gb]), t_optstr(rp["outs"][ga]), t_optstr(rp["outs"][gb]),
+                               "h0_" if rp["snap"] == case["arrays"] else t_heap(rp["snap"])))
     return out
 
 
@@ -681,11 +686,13 @@ def run(ctx):
     if ctx.replay and ctx.replay.get("case"):
         cases = [dict(ctx.replay["case"])]
     else:
-        nh = 300 if ctx.quick else 6000
-        npar = 24 if ctx.quick else 300
+        nh = 260 if ctx.quick else 6000
+        npar = 20 if ctx.quick else 300
         reps = 4 if ctx.quick else 10
         cases = [gen_history(rng) for _ in range(nh)] + [gen_par(rng, reps) for _ in range(npar)]
+    ctx.log("built; running %d cases" % len(cases))
     cases, answers, _ = run_chunks(ctx, binp, child, cases, "n")
+    ctx.log("implementation ran")
 
     # oracle on everything the implementation did
     nviol = 0
@@ -708,6 +715,7 @@ def run(ctx):
         powner += [(c, a)] * len(ts)
     pmism = ctx.coq_eval_shards("cases_C16par", header + "Definition mismatches := mismatches_conc.\n", pitems,
                                 per_shard=max(20, (len(pitems) + NCPU - 1) // NCPU)) if pitems else []
+    ctx.log("model evaluated")
     if (mism or pmism) and not ctx.violations:
         for idx, body in mism[:3]:
             c, a = hist[idx]
@@ -756,6 +764,7 @@ def run(ctx):
             "runcmd_called_under_other_verbose_than_made": 0, "calls_not_started": 0,
             "closure_called_again_with_another_program_named": 0, "closure_started_then_not_or_vice_versa": 0, "calls_in_verbose_mode": 0, "verbose_direct_calls_without_dollar": 0, "concurrent_slow_expansion_cases": 0}
     par_baked, par_goroutines, par_targets = {}, {}, {}
+    len_outcome, children = {}, {}
     overlap = {"repetitions": 0, "all_children_alive_together": 0, "max_wait_ms": 0}
     for c, a in zip(cases, answers):
         for ob in (a.get("obs") or []):
@@ -783,6 +792,14 @@ def run(ctx):
                 if ob.get("status") and ob.get("out"):
                     failed_with_output = True
                 feat["failing_calls"] += bool(ob.get("status"))
+                nargs = (len(ob["argv"][0]) - 1) if ob.get("argv") else (len(contents(c["arrays"], o["args"])) if o["op"] == "direct" else
+                                                                       len(contents(c["arrays"], allcls[o["c"]]["baked"])) + len(contents(c["arrays"], o["extra"])))
+                outcome = ("not-startable" if not ob.get("argv") else "killed-by-signal" if "--kill" in ob["argv"][0][1:] else
+                           "exit-nonzero" if ob.get("status") else "success")
+                bucket = "%s/%s args" % (o["op"], "0-5" if nargs <= 5 else "6-16" if nargs <= 16 else "17-41")
+                len_outcome.setdefault(bucket, {}).setdefault(outcome, 0)
+                len_outcome[bucket][outcome] += 1
+                children[str(len(ob.get("argv") or []))] = children.get(str(len(ob.get("argv") or [])), 0) + 1
                 feat["calls_not_started"] += not ob.get("argv")
                 if o["op"] == "call":
                     prog = (list((ob.get("lookups") or {}).values()) + [None])[0]
@@ -838,7 +855,8 @@ def run(ctx):
                    "(RunCmd/OutCmd; the command word literal, $VAR for the directory / the program name / the whole path, or a bare name resolved through PATH - with "
                    "PATH, those variables and the programs themselves (removed, restored, chmod) changing between calls; baked slice of random offset/len/cap, often spare capacity, sometimes two closures on one array), "
                    "2-12 operations setenv (V..Y and MAGEFILE_VERBOSE in ParseBool spellings) | mk (closure creation at any point) | closure call (extra nil or any slice, may alias the baked array) | the seven direct functions with env maps; "
-                   "40% of the arrays hold no $ reference at all; 9% of the cells script the child (--exit=N: print then fail, --quiet); "
+                   "arrays of 0-41 cells (a quarter around and beyond 16/32); 40% of the arrays hold no $ reference at all; 0-20% of the cells of an array script the child "
+                   "(--exit=N: print then fail, --kill: print then die by SIGKILL, --quiet); the number of children started by a call is the length of its argv list; "
                    "observed per call: argv, text handed back, bytes on os.Stdout (fresh file per call), exit status, all arrays, env map; "
                    "concurrent cases: 2-6 goroutines released together on one closure with 1,2,3,4,8,16,17,19,21 or 33 baked-in arguments (caller slice with 0-2 spare cells), "
                    "1-2 extra arguments each, baked-in arguments that are slow to expand (thousands of ${Z}) so the calls overlap inside Exec, gate-held children, the gate opens only when ALL children of the case are alive together (overlap is an observable, bound 15 s), "
@@ -850,6 +868,8 @@ def run(ctx):
     cov["operations"] = kinds
     cov["by_function"] = byfn
     cov["concurrent_baked_counts"] = {str(k): v for k, v in sorted(par_baked.items())}
+    cov["calls_by_length_and_outcome"] = len_outcome
+    cov["children_started_per_call"] = children
     cov["concurrent_targets"] = par_targets
     cov["concurrent_overlap"] = overlap
     cov["concurrent_goroutines"] = {str(k): v for k, v in sorted(par_goroutines.items())}
